@@ -230,7 +230,7 @@ func TestC13(t *testing.T) {
 		r.SetExtra("n_tiny_inputs", 2*len(inputs))
 	}
 
-	gcfg := gen.Cfg{MaxStmts: 12, MaxDepth: 3, ExprDepth: 3, Funcs: true, MaxFuncs: 2, Slices: true, StrOps: true, LoopBudget: 8, IO: true, Panics: true, ErrSpell: true}
+	gcfg := gen.Cfg{MaxStmts: 12, MaxDepth: 3, ExprDepth: 3, Funcs: true, MaxFuncs: 2, Slices: true, StrOps: true, LoopBudget: 8, IO: true, Panics: true, ErrSpell: true, BareExpr: true}
 	checkRapid(t, r, func(t *rapid.T) {
 		family := gen.Uniform(0, 9).Draw(t, "family")
 		c := totalCase{Kind: "total", Property: "C13", Main: "main.tsh"}
